@@ -1,0 +1,33 @@
+//go:build !verif
+
+package io
+
+const (
+	VH_E_START = iota + 1
+	VH_E_LOCAL
+	VH_E_WAIT
+	VH_E_SEEN
+	VH_E_EMIT0
+	VH_E_EMIT1
+	VH_E_FIN0
+	VH_E_FIN1
+	VH_W_JOIN
+	VH_D_WAIT
+	VH_D_SEEN
+	VH_D_READ0
+	VH_D_READ1
+	VH_D_PUB
+	VH_D_SKIP
+	VH_D_DEC
+	VH_D_FIN0
+	VH_D_FIN1
+	VH_R_JOIN
+	VH_W_SPAWN
+	VH_R_SPAWN
+)
+
+func verifHook(ctx map[string]any, point int, id int32, a, b int64, buf []byte) {}
+
+func verifErr(err *IOError) int64 { return 0 }
+
+func verifClip(buf []byte, n int) []byte { return nil }
